@@ -121,7 +121,7 @@ def check_value(names, acc, do_stack=True, case=None):
         merged = " and ".join(p.merge_last_name_first for p in p1)
         p2 = parts_list(merged)
     except Exception as e:
-        acc.raised[type(e).__name__] += 1
+        acc.exception(e, case, "split/parse/merge", size=len(value))
         acc.case()
         return
     nontrivial = merged != value
@@ -156,7 +156,7 @@ def check_value(names, acc, do_stack=True, case=None):
             text = bibtexparser.write_string(lib1, prepend_middleware=[MergeNameParts(), MergeCoAuthors()])
             lib2 = bibtexparser.parse_string(text, append_middleware=[SeparateCoAuthors(), SplitNameParts()])
         except Exception as e:
-            acc.raised["stack:" + type(e).__name__] += 1
+            acc.exception(e, case, "parse_string/write_string with name middlewares", size=len(value))
             continue
         ok = (
             len(lib1.blocks) == 1
